@@ -75,6 +75,22 @@ def main() -> int:
             print(f'[{pid}] tier={a.tier} seed={seed} proof_ok={proof.get("ok")} evaluations={ctx.evaluations} failures={len(ctx.failures)} '
                   f'(the library raised where the check expected a result) rc={rc}')
             return rc
+        changed = []
+        try:
+            changed = core.changed_sources(pid)
+        except Exception:  # noqa
+            pass
+        if changed and not a.replay and 'mod' in locals() and 'proof' in locals():
+            # The library's source differs from the fingerprinted one and the harness could not digest what the library returned
+            # (a result of another shape or type than the correspondence expects): the correspondence no longer checks.  On the
+            # fingerprinted source the same exception is an infrastructure failure of the check itself (exit 2).
+            ctx.fail('corr', 'harness', {'last_case_seen': ctx.last_case, 'traceback': traceback.format_exc()[-3000:], 'changed_sources': changed},
+                     f'the harness could not interpret what the library returned ({type(e).__name__}: {e})', 'corr:uninterpretable')
+            rc = core.conclude(ctx, mod, proof)
+            core.write_evidence(ctx, proof, mod.RULE, mod.ASSUMPTIONS, 1, extra={'regen': proof.get('regen', {})})
+            print(f'[{pid}] tier={a.tier} seed={seed} proof_ok={proof.get("ok")} evaluations={ctx.evaluations} failures={len(ctx.failures)} '
+                  f'(the harness could not interpret a result of the changed library) rc={rc}')
+            return rc
         traceback.print_exc()
         print(f'[{pid}] infrastructure failure (unexpected exception in the harness)', file=sys.stderr)
         return 2
